@@ -73,10 +73,22 @@ class RealBackend:
     """Real SQLite through the repository's own Database fixture."""
 
     def __init__(self):
-        from oslo_config import fixture as config_fixture
         from placement.tests import fixtures as pfix
-        self.cf = config_fixture.Config(app.CONF)
-        self.cf.setUp()
+
+        class _ConfFixture:
+            """the part of oslo_config.fixture.Config the Database fixture
+            uses, without resetting our ConfigOpts on clean-up"""
+            conf = app.CONF
+
+            def config(self, **kw):
+                group = kw.pop('group', None)
+                for k, v in kw.items():
+                    self.conf.set_override(k, v, group)
+
+            def register_opt(self, opt, group=None):
+                self.conf.register_opt(opt, group=group)
+
+        self.cf = _ConfFixture()
         self.fix = pfix.Database(self.cf, set_config=True)
         self.fix.setUp()
         from placement import db_api
@@ -106,7 +118,6 @@ class RealBackend:
 
     def close(self):
         self.fix.cleanUp()
-        self.cf.cleanUp()
 
 
 class World:
@@ -331,3 +342,53 @@ def capacity(inv):
     """(total - reserved) * allocation_ratio as the implementation writes it"""
     return symex.z_mul(symex.to_z3(inv['total']) - symex.to_z3(inv['reserved']),
                        symex.to_z3(inv['allocation_ratio']))
+
+
+def canon(state):
+    """Canonical, id-free relations of a concrete state (for comparing two
+    back ends or two executions): keyed by uuids and names only."""
+    def rows(t):
+        return [r.vals for r in state[t] if r.present is True]
+    prov = {r['id']: r for r in rows('resource_providers')}
+    rcn = {r['id']: r['name'] for r in rows('resource_classes')}
+    trn = {r['id']: r['name'] for r in rows('traits')}
+    agn = {r['id']: r['uuid'] for r in rows('placement_aggregates')}
+    prj = {r['id']: r['external_id'] for r in rows('projects')}
+    usr = {r['id']: r['external_id'] for r in rows('users')}
+    ctn = {r['id']: r['name'] for r in rows('consumer_types')}
+
+    def pu(i):
+        return prov[i]['uuid'] if i in prov else ('?%s' % i if i is not None
+                                                  else None)
+    out = {}
+    out['providers'] = sorted(
+        [r['uuid'], r['name'], r['generation'], pu(r['parent_provider_id']),
+         pu(r['root_provider_id'])] for r in prov.values())
+    out['inventories'] = sorted(
+        [pu(r['resource_provider_id']), rcn.get(r['resource_class_id'],
+                                                r['resource_class_id']),
+         r['total'], r['reserved'], r['min_unit'], r['max_unit'],
+         r['step_size'], float(r['allocation_ratio'])]
+        for r in rows('inventories'))
+    out['allocations'] = sorted(
+        [r['consumer_id'], pu(r['resource_provider_id']),
+         rcn.get(r['resource_class_id'], r['resource_class_id']), r['used']]
+        for r in rows('allocations'))
+    out['consumers'] = sorted(
+        [r['uuid'], r['generation'], prj.get(r['project_id']),
+         usr.get(r['user_id']), ctn.get(r['consumer_type_id'])]
+        for r in rows('consumers'))
+    out['traits'] = sorted(
+        [pu(r['resource_provider_id']), trn.get(r['trait_id'], r['trait_id'])]
+        for r in rows('resource_provider_traits'))
+    out['aggregates'] = sorted(
+        [pu(r['resource_provider_id']), agn.get(r['aggregate_id'],
+                                                r['aggregate_id'])]
+        for r in rows('resource_provider_aggregates'))
+    out['resource_classes'] = sorted(
+        [r['id'], r['name']] for r in rows('resource_classes'))
+    out['trait_names'] = sorted(trn.values())
+    out['projects'] = sorted(prj.values())
+    out['users'] = sorted(usr.values())
+    out['consumer_types'] = sorted(ctn.values())
+    return out
